@@ -8,12 +8,12 @@ import (
 // Scenario is the complete, explicit description of one simulated run. A run
 // is a pure function of its scenario (and of the engine code).
 type Scenario struct {
-	Prop  string `json:"prop"`           // property the scenario was generated for
-	Kind  string `json:"kind"`           // "uci" | "api" | "game" | "book" | "cache" | "tt"
-	Seed  uint64 `json:"seed"`           // origin seed (sub-streams for cost jitter etc.)
-	Note  string `json:"note,omitempty"` //
-	Cost  CostModel              `json:"cost"`
-	Config map[string]interface{} `json:"config,omitempty"` // engine configuration fields set directly
+	Prop   string                 `json:"prop"`           // property the scenario was generated for
+	Kind   string                 `json:"kind"`           // "uci" | "api" | "game" | "book" | "cache" | "tt"
+	Seed   uint64                 `json:"seed"`           // origin seed (sub-streams for cost jitter etc.)
+	Note   string                 `json:"note,omitempty"` //
+	Cost   CostModel              `json:"cost"`
+	Config map[string]interface{} `json:"config,omitempty"`  // engine configuration fields set directly
 	PollUs int64                  `json:"poll_us,omitempty"` // GUI polling period while waiting
 	Steps  []Step                 `json:"steps,omitempty"`
 	Game   *GameSpec              `json:"game,omitempty"`
@@ -101,15 +101,15 @@ type GameSpec struct {
 
 // BookSpec describes a book build / cache scenario (C19, C20).
 type BookSpec struct {
-	Games    [][]string `json:"games"`              // UCI move lists from the start position
-	Bad      []BadMove  `json:"bad,omitempty"`      // adversity: illegal/unreadable token inserted
-	Format   string     `json:"format"`             // "Simple" | "San" | "Pgn" | "all"
-	Strategy int        `json:"strategy"`           // schedule strategy
-	SchedSeeds []uint64 `json:"sched_seeds,omitempty"`
-	Decor    uint64     `json:"decor_seed"`         // PGN decoration seed
+	Games      [][]string `json:"games"`         // UCI move lists from the start position
+	Bad        []BadMove  `json:"bad,omitempty"` // adversity: illegal/unreadable token inserted
+	Format     string     `json:"format"`        // "Simple" | "San" | "Pgn" | "all"
+	Strategy   int        `json:"strategy"`      // schedule strategy
+	SchedSeeds []uint64   `json:"sched_seeds,omitempty"`
+	Decor      uint64     `json:"decor_seed"` // PGN decoration seed
 	// cache damage (C20)
-	Damage []CacheDamage `json:"damage,omitempty"`
-	AllPrefixes bool     `json:"all_prefixes,omitempty"`
+	Damage      []CacheDamage `json:"damage,omitempty"`
+	AllPrefixes bool          `json:"all_prefixes,omitempty"`
 }
 
 // BadMove inserts a token that is not a legal move after ply At of game Game.
@@ -185,23 +185,23 @@ type Violation struct {
 
 // RunResult is what a worker reports for one scenario.
 type RunResult struct {
-	Seed       uint64            `json:"seed"`
-	Prop       string            `json:"prop"`
-	Kind       string            `json:"kind"`
-	Violations []Violation       `json:"violations,omitempty"`
-	Harness    string            `json:"harness_error,omitempty"` // harness-side trouble (exit 2 material)
-	TraceHash  string            `json:"trace_hash"`
-	Signature  string            `json:"signature"` // interleaving signature (evidence)
-	NonTrivial bool              `json:"nontrivial"`
-	SimNs      int64             `json:"sim_ns"`
-	Yields     int64             `json:"yields"`
-	Faults     map[string]int    `json:"faults,omitempty"`
-	Probes     map[string]int    `json:"probes,omitempty"`
-	Counters   map[string]int64  `json:"counters,omitempty"`
-	WallMs     int64             `json:"wall_ms"`
-	ExitAfter  bool              `json:"exit_after,omitempty"`
-	Scenario   *Scenario         `json:"scenario,omitempty"` // included for violations and samples
-	Sample     json.RawMessage   `json:"sample,omitempty"`
+	Seed       uint64           `json:"seed"`
+	Prop       string           `json:"prop"`
+	Kind       string           `json:"kind"`
+	Violations []Violation      `json:"violations,omitempty"`
+	Harness    string           `json:"harness_error,omitempty"` // harness-side trouble (exit 2 material)
+	TraceHash  string           `json:"trace_hash"`
+	Signature  string           `json:"signature"` // interleaving signature (evidence)
+	NonTrivial bool             `json:"nontrivial"`
+	SimNs      int64            `json:"sim_ns"`
+	Yields     int64            `json:"yields"`
+	Faults     map[string]int   `json:"faults,omitempty"`
+	Probes     map[string]int   `json:"probes,omitempty"`
+	Counters   map[string]int64 `json:"counters,omitempty"`
+	WallMs     int64            `json:"wall_ms"`
+	ExitAfter  bool             `json:"exit_after,omitempty"`
+	Scenario   *Scenario        `json:"scenario,omitempty"` // included for violations and samples
+	Sample     json.RawMessage  `json:"sample,omitempty"`
 }
 
 func (r *RunResult) addViolation(prop, class, detail string) {
